@@ -102,6 +102,10 @@ class InfeasiblePath(Exception):
     pass
 
 
+class PathDone(Exception):
+    """a verification-only path ends here (e.g. the preservation branch of a loop contract): its obligations count"""
+
+
 class PathResult:
     def __init__(self, kind, value, ctx):
         self.kind = kind  # 'return' | 'raise'
@@ -134,6 +138,8 @@ class Explorer:
                 results.append(PathResult("return", val, ctx))
             except SymRaise as e:
                 results.append(PathResult("raise", e.exc, ctx))
+            except PathDone:
+                results.append(PathResult("done", None, ctx))
             except InfeasiblePath:
                 continue
         return results
